@@ -28,7 +28,7 @@ impl Adapter for ReconnectAd {
     }
     fn gen_cfg(&mut self, rng: &mut Rng, _size: Size) -> Value {
         let pol = *rng.pick(&["none", "fixed", "exp", "exp", "rand", "custom"]);
-        json!({"hm": rng.below(3), "max": *rng.pick(&[-1i64, 0, 1, 2, 3, 5]), "pol": pol, "b0": 1 + rng.below(3), "cap": 4 + rng.below(6),
+        json!({"hm": rng.below(4), "max": *rng.pick(&[-1i64, 0, 1, 2, 3, 5]), "pol": pol, "b0": 1 + rng.below(3), "cap": 4 + rng.below(6),
                "retryOn": if rng.pct(80) { 1 } else { 0 }, "pred": *rng.pick(&["all", "noe2"])})
     }
     fn build(&mut self, cfg: &Value, sim: &mut Sim) {
@@ -62,9 +62,7 @@ impl Adapter for ReconnectAd {
     }
     fn mk(&mut self, req: &Req) -> CallFut {
         let f = self.svc.as_mut().unwrap().with(|s| {
-            let w = futures::task::noop_waker();
-            let mut cx = std::task::Context::from_waker(&w);
-            let _ = s.poll_ready(&mut cx);
+            ready_unless_parked(s);
             s.call(req.clone())
         });
         Box::pin(async move {
